@@ -122,7 +122,7 @@ static void check_stats(const std::string &prop, const MSignal &s, const Op &o, 
         uint32_t pp[7]; for (int i = 0; i < 7; ++i) pp[i] = s.p[i];
         // d = level-1 decimation; use the smallest legal value (10) for the lower bound so the bound never depends on re-deriving normalisation
         long double dmin = 10.0L;
-        long double tau = C * eps, alpha = C * eps * mag + 1e-300L;
+        long double tau = C * eps + (long double) inc * ldexpl(1, -52), alpha = (C * eps + (long double) inc * ldexpl(1, -52)) * mag + 1e-300L;   // accumulated rounding of n additions
         long double lo = sqrtl((dmin - 1) / dmin) * sigma * (1 - tau) - alpha, hi = sigma * (1 + tau) + alpha;
         if (inc == 1) { lo = -alpha; }
         if (!((long double) sd >= lo && (long double) sd <= hi)) {
@@ -256,7 +256,10 @@ static void check_conv(const std::string &prop, const MSignal &s, const Op &o, c
         bool inside = (o.a >= X(k) && o.a <= X(k + 1)) || (k == 0 && o.a < X(0)) || (k + 2 == u.size() && o.a > X(k + 1));
         if (inside && within_interp(o.a, res, X(k), Y(k), X(k + 1), Y(k + 1), 1)) ok = true;
     }
-    if (!ok) add_violation(v, prop, s2t ? "conv_s2t" : "conv_t2s", fmt("sig=%d q=%lld got=%lld entries=%zu segment_lo=%zu x0=%lld y0=%lld x1=%lld y1=%lld", s.id, (long long) o.a, (long long) res, u.size(), lo,
+    // products beyond 2^53 cannot be exact in the double arithmetic of the time map: separate class (known finding)
+    long double span = fabsl((long double) (o.a - X(lo)) * (long double) (Y(lo + 1) - Y(lo)) / (long double) std::max<int64_t>(1, X(lo + 1) - X(lo)));
+    bool far = span >= 9007199254740992.0L / 4 || fabsl((long double) (o.a - X(lo))) >= 9007199254740992.0L / 4;
+    if (!ok) add_violation(v, prop, far ? (s2t ? "conv_s2t_far" : "conv_t2s_far") : (s2t ? "conv_s2t" : "conv_t2s"), fmt("sig=%d q=%lld got=%lld entries=%zu segment_lo=%zu x0=%lld y0=%lld x1=%lld y1=%lld", s.id, (long long) o.a, (long long) res, u.size(), lo,
                                                                       (long long) X(lo), (long long) Y(lo), (long long) X(lo + 1), (long long) Y(lo + 1)), ri);
     // round trip (s2t only): out carries [t, rc_back, s_back]
     if (s2t && ok && c.out.size() >= 24) {
@@ -294,8 +297,8 @@ static bool signal_matches(const MSignal &s, const std::vector<uint8_t> &got, si
     if (offs != exp_off) { snprintf(b, sizeof b, "sig %d: sample_id_offset %lld != %lld", s.id, (long long) offs, (long long) exp_off); why = b; return false; }
     // storage parameters: must respect the requested values' minimums and be non-zero (exact relations are the decoder's job)
     if (s.id != 0 && (spd == 0 || sdf == 0 || eps == 0 || sumdf == 0)) { snprintf(b, sizeof b, "sig %d: zero storage parameter", s.id); why = b; return false; }
-    uint32_t exp_adf = s.p[5] ? s.p[5] : 100, exp_udf = s.p[6] ? s.p[6] : 100;
-    if (s.id != 0 && (adf != exp_adf || udf != exp_udf)) { snprintf(b, sizeof b, "sig %d: adf/udf %u/%u != %u/%u", s.id, adf, udf, exp_adf, exp_udf); why = b; return false; }
+    uint32_t exp_adf = s.p[5] ? s.p[5] : adf, exp_udf = s.p[6] ? s.p[6] : udf;     // defaults are the library's choice
+    if (s.id != 0 && (adf != exp_adf || udf != exp_udf || adf == 0 || udf == 0)) { snprintf(b, sizeof b, "sig %d: adf/udf %u/%u != %u/%u", s.id, adf, udf, exp_adf, exp_udf); why = b; return false; }
     return true;
 }
 
